@@ -7,6 +7,7 @@ package apiedit
 
 import (
 	"fmt"
+	"reflect"
 
 	"github.com/llir/llvm/ir"
 )
@@ -109,4 +110,55 @@ func isVoid(x any) bool {
 		return v.Type().String() == "void"
 	}
 	return false
+}
+
+// lazyTyp lists the instruction and terminator kinds whose Type method computes the result type when the
+// exported cache field Typ is nil ("cache type if not present").
+var lazyTyp = map[string]bool{
+	"InstAShr": true, "InstAdd": true, "InstAlloca": true, "InstAnd": true, "InstAtomicRMW": true, "InstCall": true,
+	"InstCmpXchg": true, "InstExtractElement": true, "InstExtractValue": true, "InstFAdd": true, "InstFCmp": true,
+	"InstFDiv": true, "InstFMul": true, "InstFNeg": true, "InstFRem": true, "InstFSub": true, "InstFreeze": true,
+	"InstGetElementPtr": true, "InstICmp": true, "InstInsertElement": true, "InstInsertValue": true, "InstLShr": true,
+	"InstMul": true, "InstOr": true, "InstPhi": true, "InstSDiv": true, "InstSRem": true, "InstSelect": true,
+	"InstShl": true, "InstShuffleVector": true, "InstSub": true, "InstUDiv": true, "InstURem": true, "InstXor": true,
+	"TermCallBr": true, "TermInvoke": true,
+}
+
+// ClearResultTypes empties the result-type cache (the exported field Typ) of a seeded subset of the
+// instructions and terminators of every function definition, which is what a program does that has changed an
+// operand or a callee and wants the type to follow, and the state of an instruction that was built from its
+// exported fields instead of a constructor. The library computes the type again when it is asked for; the
+// module means what it meant. It returns the number of caches emptied.
+func ClearResultTypes(seed uint64, m *ir.Module) int {
+	state := seed ^ 0xA5A5A5A5A5A5A5A5
+	next := func(n int) int {
+		state += 0x9E3779B97F4A7C15
+		z := state
+		z = (z ^ (z >> 30)) * 0xBF58476D1CE4E5B9
+		z = (z ^ (z >> 27)) * 0x94D049BB133111EB
+		z ^= z >> 31
+		return int(z % uint64(n))
+	}
+	n := 0
+	clear := func(x any) {
+		v := reflect.ValueOf(x)
+		if v.Kind() != reflect.Ptr || v.IsNil() || v.Elem().Kind() != reflect.Struct || !lazyTyp[v.Elem().Type().Name()] {
+			return
+		}
+		f := v.Elem().FieldByName("Typ")
+		if !f.IsValid() || !f.CanSet() || f.IsZero() || next(2) == 0 {
+			return
+		}
+		f.Set(reflect.Zero(f.Type()))
+		n++
+	}
+	for _, f := range m.Funcs {
+		for _, b := range f.Blocks {
+			for _, in := range b.Insts {
+				clear(in)
+			}
+			clear(b.Term)
+		}
+	}
+	return n
 }
